@@ -27,4 +27,4 @@ def handle (s : Sexp) : String :=
     showMSyms (mergeScopes freshName o sf inn)
   | _ => "bad-command"
 
-def main : IO Unit := run handle
+def main : IO _root_.Unit := run handle
